@@ -129,11 +129,12 @@ func TestDescribe(t *testing.T) {
 		HasGen       bool     `json:"has_gen"`
 		FuzzTargets  []string `json:"fuzz_targets"`
 		FuzzSeconds  int      `json:"fuzz_seconds"`
+		RaceWorker   bool     `json:"race_worker"`
 	}
 	var list []meta
 	for _, id := range IDs() {
 		p := Lookup(id)
-		list = append(list, meta{p.ID, p.Title, p.Level, p.Rule, p.Assumptions, p.Quick, p.Thorough, p.Shards, p.Race, p.RaceQuick, p.RaceThorough, p.Exhaustive, p.Gen != nil, p.FuzzTargets, p.FuzzSeconds})
+		list = append(list, meta{p.ID, p.Title, p.Level, p.Rule, p.Assumptions, p.Quick, p.Thorough, p.Shards, p.Race, p.RaceQuick, p.RaceThorough, p.Exhaustive, p.Gen != nil, p.FuzzTargets, p.FuzzSeconds, p.RaceWorker})
 	}
 	b, _ := json.Marshal(list)
 	if err := os.WriteFile(f, b, 0o644); err != nil {
